@@ -38,7 +38,7 @@ func c15Pool(name string) []string {
 	} else {
 		pool = append(pool, "["+b[0]+","+b[2]+")", "(,"+b[1]+"]")
 	}
-	pool = append(pool, "not-a-version!", "", " ", "-1", "--", "\""+b[0]+"\"", b[0]+" "+b[2], b[0]+"\n")
+	pool = append(pool, "not-a-version!", "", " ", "-1", "--", "\""+b[0]+"\"", b[0]+" "+b[2], b[0]+"\n", "1.0%d", "2.0%s%%")
 	return pool
 }
 
